@@ -135,6 +135,23 @@ def decl : Tok Test Act → St → St
   | .ifl (.sw k), s => if (s.sw k).isSome then s else setSw s k false
   | _, s => s
 
+/-! ### the names `Context.newif(name)` registers
+
+```
+ifclass  = type(name, (NewIf,), {'state': initial});           self.addGlobal(name, ifclass)
+truename = name[2:] + 'true';   type(truename, (IfTrue,), {'ifclass': ifclass});   self.addGlobal(truename, …)
+falsename = name[2:] + 'false'; type(falsename, (IfFalse,), {'ifclass': ifclass}); self.addGlobal(falsename, …)
+```
+Names are lists of code points.  The model's switch index `k` stands for the name; this function is
+what ties a setter macro `\<rest>true` to its switch `\if<rest>`. -/
+
+def trueSuffix : List Nat := [116, 114, 117, 101]          -- "true"
+def falseSuffix : List Nat := [102, 97, 108, 115, 101]     -- "false"
+
+/-- (name of the switch, name of its true-setter, name of its false-setter) -/
+def newifNames (name : List Nat) : List Nat × List Nat × List Nat :=
+  (name, name.drop 2 ++ trueSuffix, name.drop 2 ++ falseSuffix)
+
 def sem : Sem Test Act St := ⟨ev, eff, decl⟩
 
 end PlasVerif.Model.Tests
